@@ -176,6 +176,8 @@ package router
 // every verified layer adds exactly one hop: none is skipped or dropped
 //@   invariant 1 layers [C08]: 1 <= i && i <= 100 && len(hops) == i - 1
 //@   ensures message [C13]: result2 == nil ==> result0 != nil
+// the hop list is complete: parsing ends only when nothing of the appendix is left (a truncated inner record is an error)
+//@   ensures whole-appendix-consumed [C08]: result2 == nil ==> len(apx) == 0
 
 //@ func AnnouncePingHandler.sessionFromAnnouncePingAttachment
 //@   ensures session-of-named-router [C08]: result1 == nil ==> result0.id == a.Router.IP
